@@ -200,9 +200,9 @@ package lang
 //@   ensures[C05] str-coercion: result == specStr(*v)
 //@   modifies nothing
 
-//@ func Value.isTruthy [C05]
+//@ func Value.isTruthy [C02,C05,C07]
 //@   requires v != nil
-//@   ensures[C05] truthiness: result == specTruthy(*v)
+//@   ensures[C02,C05,C07] truthiness: result == specTruthy(*v)
 //@   modifies nothing
 
 // DESIGN.md 3.4 rows 2-6 (row 1, unset operands, is decided by the caller before Compare is reached).
@@ -321,6 +321,7 @@ package lang
 //@   modifies spare(rootValues)
 //@   ensures[C17] recurrence-is-marked: checkCircularReference && (exists k int :: 0 <= k && k < len(rootValues) && sameContainer(rootValues[k], v)) ==> result == "<circular reference>"
 //@   ensures[C17] string-raw-or-quoted: !(checkCircularReference && (exists k int :: 0 <= k && k < len(rootValues) && sameContainer(rootValues[k], v))) && v.Tag == ValueStr ==> result == (quote ? "\"" + *v.Str + "\"" : *v.Str)
+//@   exit[C17] marker-only-at-a-recurrence: checkCircularReference && rangeindex#0 < len(rootValues) ==> sameContainer(rootValues[rangeindex#0], v)
 //@   ensures[C17] number-positional-decimal: v.Tag == ValueNum ==> result == fmtNum(*v.Num)
 //@   ensures[C17] booleans-and-null-as-words: (v.Tag == ValueBool ==> result == (*v.Bool ? "true" : "false")) && (v.Tag == ValueNil ==> result == "null")
 //@   assert[C17] children-get-the-extended-path: arg2 && arg3 && len(arg1) == len(rootValues) + 1 && arg1[len(rootValues)] == v && (forall k int :: 0 <= k && k < len(rootValues) ==> arg1[k] == rootValues[k]) @ Value.prettyStringInteral
@@ -621,14 +622,14 @@ package lang
 //@   ensures[C11] fault-latched: $faulted <==> err != nil
 //@   ensures[C09,C11] store-on-scalar-is-error: old(left.Value.ParentObj) != nil && scalarTag(old(left.Value.ParentObj.Tag)) ==> err != nil
 
-//@ func Evaluator.callFunction [C01,C08,C11]
+//@ func Evaluator.callFunction [C01,C02,C07,C08,C11,C20]
 //@   modifies valueHeap, e.stackTop, e.returnVal
 //@   requires evOK(e) && exp != nil && fn != nil && !$faulted
 //@   updates $faulted, $out
 //@   ensures[C01] result-or-error: err == nil ==> result0 != nil
 //@   ensures[C01] errkind: err == nil || isRT(err) || isFlow(err)
 //@   ensures[C01] return-consumed: err != errReturn
-//@   ensures[C08] stack-restored: stackKept(e, old(e.stackTop), err)
+//@   ensures[C02,C08,C20] stack-restored: stackKept(e, old(e.stackTop), err)
 //@   ensures[C11] fault-latched: $faulted <==> isFault(err)
 //@   ensures evok: evOK(e)
 
@@ -637,10 +638,10 @@ package lang
 //@   after Evaluator.evalStatement: $bodyRan = true
 //@   after Evaluator.evalStatement: $bodyOut = ret0
 //@   after Evaluator.evalStatement: $retVal = e.returnVal
-//@   ensures[C08] no-return-statement-yields-null: fn.Value.Tag == ValueFn && err == nil && $bodyRan && $bodyOut != errReturn ==> result0.Value.Tag == ValueNil && fresh(result0)
-//@   ensures[C08] return-without-value-yields-null: fn.Value.Tag == ValueFn && err == nil && $bodyRan && $bodyOut == errReturn && $retVal == nil ==> result0.Value.Tag == ValueNil && fresh(result0)
-//@   ensures[C08] return-value-is-yielded: fn.Value.Tag == ValueFn && err == nil && $bodyRan && $bodyOut == errReturn && $retVal != nil ==> fresh(result0) && result0.Value == *$retVal
-//@   ensures[C08] other-outcomes-propagate: fn.Value.Tag == ValueFn && $bodyRan && $bodyOut != nil && $bodyOut != errReturn ==> err == $bodyOut
+//@   ensures[C07,C08] no-return-statement-yields-null: fn.Value.Tag == ValueFn && err == nil && $bodyRan && $bodyOut != errReturn ==> result0.Value.Tag == ValueNil && fresh(result0)
+//@   ensures[C07,C08] return-without-value-yields-null: fn.Value.Tag == ValueFn && err == nil && $bodyRan && $bodyOut == errReturn && $retVal == nil ==> result0.Value.Tag == ValueNil && fresh(result0)
+//@   ensures[C07,C08] return-value-is-yielded: fn.Value.Tag == ValueFn && err == nil && $bodyRan && $bodyOut == errReturn && $retVal != nil ==> fresh(result0) && result0.Value == *$retVal
+//@   ensures[C07,C08] other-outcomes-propagate: fn.Value.Tag == ValueFn && $bodyRan && $bodyOut != nil && $bodyOut != errReturn ==> err == $bodyOut
 //@   assert[C08] body-runs-in-a-fresh-frame: e.stackTop == $frame && fresh(e.stackTop) && arg1 == fn.Value.Fn.Body @ Evaluator.evalStatement
 //@   loop 0 invariant protocol: evOK(e) && e.stackTop == $frame && $frame.parent == old(e.stackTop) && !$faulted && !$bodyRan
 //@   loop 0 invariant[C08] parameters-bound-by-position: forall k int :: 0 <= k && k <= rangeindex ==> has($frame.locals, fn.Value.Fn.Args[k]) && fresh($frame.locals[fn.Value.Fn.Args[k]])
@@ -1323,6 +1324,7 @@ package lang
 //@   ensures[C04] array-is-a-non-nil-list-of-the-same-length: v.Tag == ValueArray && err == nil ==> istype(result0, "[]any") && as(result0, "[]any") != nil && len(as(result0, "[]any")) == len(v.Array)
 //@   ensures[C04] object-is-a-map: v.Tag == ValueObj && err == nil ==> istype(result0, "map[string]any") && as(result0, "map[string]any") != nil && fresh(as(result0, "map[string]any"))
 //@   ensures[C04] inexpressible-is-an-error: (v.Tag == ValueFn || v.Tag == ValueNativeFn || v.Tag == ValueRegex) ==> err != nil
+//@   exit[C04] cycle-error-only-at-a-recurrence: checkCircularReference && rangeindex#0 < len(rootValues) ==> sameContainer(rootValues[rangeindex#0], v)
 //@   ensures[C04] cycle-is-an-error: checkCircularReference && (exists k int :: 0 <= k && k < len(rootValues) && sameContainer(rootValues[k], v)) ==> err != nil
 //@   assert[C04] children-get-the-extended-path: arg2 && len(arg1) == len(rootValues) + 1 && arg1[len(rootValues)] == v && (forall k int :: 0 <= k && k < len(rootValues) ==> arg1[k] == rootValues[k]) @ Value.toGoValueInterval
 //@   loop 0 invariant no-ancestor-so-far: !$faulted && (forall k int :: 0 <= k && k <= rangeindex ==> !sameContainer(rootValues[k], v))
